@@ -304,3 +304,7 @@ def selftest():
 
 def replay(ctx, case):
     {'prim': check_prim, 'large': check_large}.get(case['kind'], check_stop)(ctx, case)
+
+
+# dimensions added after the fourth and fifth round of seeded changes (DESIGN.md 8.3, 8.4); part of the rule reported in the evidence
+RULE += ' Added with the fourth and fifth round of seeded changes: batches of 32 769..131 073 blocks compared with 4096-block chunks and 48 reference rows; caller refills its argument arrays while holding the result.'
